@@ -22,9 +22,12 @@ def _is_charp(u, tid, stars=1):
 
 
 class CursorDiffs(object):
-    def __init__(self, u, fn, summaries=None, assume=None):
+    def __init__(self, u, fn, summaries=None, assume=None, nonterm=None):
         self.u = u
         self.fn = fn
+        # {entry cursor key: n}: the n bytes at the cursor are not the terminator when the function is entered (what the
+        # callers guarantee; BND3 infers the numbers and checks them at every call site)
+        self.nonterm = dict(nonterm or {})
         self.cfg = fn.cfg()
         self.summaries = summaries if summaries is not None else {}
         self.keys = []
@@ -254,7 +257,15 @@ class CursorDiffs(object):
                     elif op == '+=' and self.ikey(r) is not None and (self.get(D, self.ikey(r), 'Z') > NEG or self.get(D, 'Z', self.ikey(r)) > NEG):
                         D = self.advance_by_counter(D, c, self.ikey(r))
                     elif op == '+=' and r.get('k') == 'call' and callee_name(r) in SPAN_FUNCS:
+                        least = 0
+                        if callee_name(r) == 'strlen' and r['args'] and self.key(r['args'][0]) == c and self.nonterm.get(c):
+                            # the string at c is at least as long as the non-terminator bytes known to lie ahead of it
+                            back = self.get(D, '@' + c, c)           # @c - c >= back, i.e. c - @c <= -back
+                            if back > NEG:
+                                least = max(0, self.nonterm[c] + back)
                         D = self.shift_nonneg(D, c)
+                        if least:
+                            D = self.shift(D, c, least)
                     elif op == '+=' and r.get('k') == 'bin' and r['op'] == '+' and any(
                             strip_casts(x).get('k') == 'call' and callee_name(strip_casts(x)) in SPAN_FUNCS and
                             (const_val(y) or -1) >= 0 for (x, y) in ((r['l'], r['r']), (r['r'], r['l']))):
@@ -527,9 +538,10 @@ class CursorDiffs(object):
         return live_in
 
 
-def unit_summaries(u):
+def unit_summaries(u, nonterm=None):
     """Bottom-up summaries of the functions of u that take a char** cursor."""
     summaries = {}
+    nonterm = nonterm or {}
     todo = [fn for fn in u.function_list if any(_is_charp(u, p['ty'], 2) for p in fn.params) or
             (_is_charp(u, fn.ret, 1) and sum(1 for p in fn.params if _is_charp(u, p['ty'], 1)) == 1 and fn.body is not None)]
     # callees first: a function that calls another listed one goes after it
@@ -557,7 +569,7 @@ def unit_summaries(u):
         for r in rp:
             for w in wp:
                 assume[('@*' + r, '@*' + w)] = 0      # in-place pair: analysed for a reader that is not behind the writer
-        cd = CursorDiffs(u, fn, summaries, assume=assume)
+        cd = CursorDiffs(u, fn, summaries, assume=assume, nonterm=nonterm.get(fn.name))
         cd.run()
         s = cd.summary()
         if s is not None:
@@ -565,15 +577,22 @@ def unit_summaries(u):
     return summaries
 
 
-def summaries_of(u):
+def summaries_of(u, nonterm=None):
+    if nonterm:
+        key = repr(sorted((k, sorted(v.items())) for k, v in nonterm.items()))
+        cache = getattr(u, '_curdiff_summaries_nt', None)
+        if cache is None or cache[0] != key:
+            u._curdiff_summaries_nt = (key, unit_summaries(u, nonterm))
+        return u._curdiff_summaries_nt[1]
     if getattr(u, '_curdiff_summaries', None) is None:
         u._curdiff_summaries = unit_summaries(u)
     return u._curdiff_summaries
 
 
-def moves_forward(u, callee, pname, at_least=0):
-    """The callee leaves *pname at least `at_least` bytes after where it found it, on every path."""
-    s = summaries_of(u).get(callee.name)
+def moves_forward(u, callee, pname, at_least=0, nonterm=None):
+    """The callee leaves *pname at least `at_least` bytes after where it found it, on every path (nonterm: {function:
+    {cursor key: bytes known not to be the terminator on entry}}, guaranteed by the callers)."""
+    s = summaries_of(u, nonterm).get(callee.name)
     if s is None:
         return False
     p = '*' + pname
